@@ -15,7 +15,7 @@ use std::collections::HashMap;
 use std::time::Duration;
 use tokio::io::{AsyncReadExt, AsyncWriteExt};
 
-pub const RULE: &str = "pipelined request sequences (1..64, written in generated segmentations) drawn from version {1,0,2,255} x query-format {1,0,2,4095,0xFFFF} x query {registered path of every built-in handler kind, unregistered, non-UTF-8, empty} x body-format {0,1,2,3,4,0xFFFF} x body {well-formed for that handler, truncated, random, empty} x notify {0,1}, distinct ids, random reserved bits, sent to four dispatch paths built from one router factory: Server::serve and AsyncServer::serve over loopback TCP, the WebSocket server in-process (duplex) for inline routes and for the _blocking (off-reader) routes; oracle: (a) an envelope model gives the exact code for version / query-format / non-UTF-8 / unknown-path rejections and 'no response' for notifies, dispatched requests are predicted by an in-process twin router through the documented echo rule, handler observation logs must equal the twin's (exactly once if dispatched, never if rejected); (b) completeness without timing: wait for the predicted number of responses, then half-close and read to end of stream: any extra frame is a violation; (c) inline responses arrive in request order; (d) the response fields are identical on all four paths; non-trivial = sequence contains >=1 rejected, >=1 dispatched and >=1 notify request; distinct = case hash";
+pub const RULE: &str = "pipelined request sequences (1..64, written in generated segmentations) drawn from version {1,0,2,255} x query-format {1,0,2,4095,0xFFFF} x query {registered path of every built-in handler kind, unregistered, non-UTF-8, empty} x body-format {0,1,2,3,4,0xFFFF} x body {well-formed for that handler, truncated, random, empty} x notify {0,1}, distinct ids, random reserved bits, sent to four dispatch paths built from one router factory: Server::serve and AsyncServer::serve over loopback TCP, the WebSocket server in-process (duplex) for inline routes and for the _blocking (off-reader) routes; oracle: (a) an envelope model gives the exact code for version / query-format / non-UTF-8 / unknown-path rejections and 'no response' for notifies, dispatched requests are predicted by an in-process twin router through the documented echo rule, handler observation logs must equal the twin's (exactly once if dispatched, never if rejected); (b) completeness without timing: wait for the predicted number of responses, then half-close and read to end of stream: any extra frame is a violation; (c) inline responses arrive in request order; (d) the response fields are identical on all four paths; (ws-backpressure) a pipelined burst of inline and off-reader requests with handler-pushed notifies and concurrent broadcasts against outbound capacities 1..1024, pipe sizes 1 KiB..1 MiB and a peer that stops reading for up to 60 ms: every request must still get exactly one response (byte image of the handler answer with its id and query), inline ones in order; non-trivial = sequence contains >=1 rejected, >=1 dispatched and >=1 notify request; distinct = case hash";
 
 #[derive(Debug, Clone, Serialize, Deserialize, Hash, PartialEq, Eq)]
 pub enum QuerySel {
@@ -584,7 +584,60 @@ pub fn case(max_len: usize) -> BoxedStrategy<Case> {
         .boxed()
 }
 
+// ------------------------------------------------ WebSocket server under backpressure
+
+/// Exactly one response per request also when the outbound queue is full: a pipelined
+/// burst of inline and off-reader requests (with handler-pushed notifies and broadcasts
+/// competing for the queue), small outbound capacities, a small pipe and a peer that
+/// stops reading for a while. Scenario and capture are shared with C05's WebSocket
+/// check (`c05_ws::observe`); the oracle here is C03's.
+pub fn check_ws_backpressure(c: &super::c05_ws::WsCase) -> CheckResult {
+    let obs = super::c05_ws::observe(c)?;
+    let n = obs.expected_responses.len();
+    let mut seen_at: Vec<Option<usize>> = vec![None; n];
+    for (pos, m) in obs.messages.iter().enumerate() {
+        if m.len() < 48 || m[11] != 0 {
+            continue; // a notify
+        }
+        let id = u64::from_le_bytes(m[16..24].try_into().unwrap());
+        let idx = id.wrapping_sub(1) as usize;
+        ensure!(idx < n, "WebSocket:unsolicited-response", "a response carries id {id:#x}, which no request had");
+        ensure!(
+            *m == obs.expected_responses[idx],
+            "WebSocket:response-differs",
+            "the response to request {id} is not the handler's answer with the request's id and query: {}",
+            crate::util::diff_msg("response vs expected", m, &obs.expected_responses[idx])
+        );
+        ensure!(seen_at[idx].is_none(), "WebSocket:duplicate-response", "two responses carry id {id}");
+        seen_at[idx] = Some(pos);
+    }
+    let missing: Vec<usize> = (0..n).filter(|i| seen_at[*i].is_none()).map(|i| i + 1).collect();
+    ensure!(
+        missing.is_empty(),
+        "WebSocket:missing-response",
+        "{} of {n} requests were never answered (ids {:?}{}); outbound capacity selector {}, peer stalled {} ms, connection ended early: {}",
+        missing.len(),
+        &missing[..missing.len().min(8)],
+        if missing.len() > 8 { ", …" } else { "" },
+        c.capacity,
+        c.stall_ms,
+        obs.ended
+    );
+    // inline requests are answered in arrival order
+    let inline_positions: Vec<usize> = c.reqs.iter().enumerate().filter(|(_, r)| !r.off_reader).map(|(i, _)| seen_at[i].unwrap()).collect();
+    ensure!(
+        inline_positions.windows(2).all(|w| w[0] < w[1]),
+        "WebSocket:response-order",
+        "inline responses did not arrive in request order (positions {inline_positions:?})"
+    );
+    let refused = obs.issued.iter().filter(|p| !p.3).count();
+    Ok(CaseInfo::new(c.reqs.len() >= 4 && (refused > 0 || c.stall_ms > 0))
+        .class(if refused > 0 { "queue-was-full" } else { "queue-never-full" })
+        .class(if c.stall_ms > 0 { "peer-stalled" } else { "peer-prompt" }))
+}
+
 pub fn run(ctx: &Ctx, rep: &Report) {
+    run_prop(ctx, rep, "ws-backpressure", ctx.tier.pick(200, 5_000), &|| super::c05_ws::ws_case(), &check_ws_backpressure);
     run_prop(ctx, rep, "sequences", ctx.tier.pick(3_000, 40_000), &|| case(24), &check);
     run_prop(ctx, rep, "long-sequences", ctx.tier.pick(400, 8_000), &|| case(64), &check);
 }
@@ -592,6 +645,7 @@ pub fn run(ctx: &Ctx, rep: &Report) {
 pub fn replay(sub: &str, case: &serde_json::Value) -> Result<(), Fail> {
     match sub {
         "sequences" | "long-sequences" => replay_case::<Case>(case, &check),
+        "ws-backpressure" => replay_case::<super::c05_ws::WsCase>(case, &check_ws_backpressure),
         _ => Err(Fail::new("replay-unknown-sub", sub.to_string())),
     }
 }
